@@ -227,6 +227,19 @@ func (x *Exec) VerifyFunc(key string, fc *FuncContract) (err error) {
 	for _, r := range fc.Requires {
 		st.assumeRaw(x.specBool(env, r.Expr))
 	}
+	// "ghost jsize-is <expr>": in this function the janitor's view of the cache size (ghost jsize
+	// of the callback contracts) is the value of <expr>
+	for _, g := range fc.Ghost {
+		if strings.HasPrefix(g, "jsize-is ") {
+			e, err := ParseSpec(strings.TrimPrefix(g, "jsize-is "))
+			if err != nil {
+				return fmt.Errorf("%s: jsize-is: %v", key, err)
+			}
+			if v, ok := x.specEval(env, e).(IntV); ok {
+				st.assumeRaw(Eq(st.ghostInt("jsize"), v.T))
+			}
+		}
+	}
 	ctx.Entry = st.clone()
 	// vacuity: the precondition must be satisfiable
 	x.Obls = append(x.Obls, &Obligation{Func: ctx.Name, Kind: "cover", Label: "requires", Name: ctx.Name + "#cover:requires",
@@ -269,6 +282,15 @@ func (x *Exec) atReturn(fr *Frame, st *State, ctx *FuncCtx, sig *types.Signature
 			env.vars["result"] = v
 		}
 		results[name] = v
+	}
+	for _, g := range ctx.Contract.Ghost {
+		if strings.HasPrefix(g, "jsize-is ") {
+			if e, err := ParseSpec(strings.TrimPrefix(g, "jsize-is ")); err == nil {
+				if v, ok := x.specEval(env, e).(IntV); ok {
+					st.ghost["jsize"] = IntV{v.T}
+				}
+			}
+		}
 	}
 	for i, e := range ctx.Contract.Ensures {
 		t := x.specBool(env, e.Expr)
